@@ -713,6 +713,12 @@ func buildDocPool(cfg Config) (*docPool, error) {
 			p.docs = append(p.docs, corpus.Gen(f, root.Derive("c20-"+f, i), i))
 		}
 	}
+	// TTML documents that differ only in their (unknown) language tag, pairwise sharing the primary subtag
+	for _, tag := range []string{"pt-PT", "pt-BR", "de-AT", "de-CH"} {
+		p.docs = append(p.docs, corpus.Doc{Name: "ttml-lang-" + tag, Format: "ttml", Data: []byte(`<?xml version="1.0" encoding="UTF-8"?>
+<tt xml:lang="` + tag + `" xmlns="http://www.w3.org/ns/ttml"><head><metadata><ttm:title xmlns:ttm="http://www.w3.org/ns/ttml#metadata">lang</ttm:title></metadata></head>
+<body><div><p begin="00:00:01.000" end="00:00:02.000">Ol&#225;</p><p begin="00:00:03.000" end="00:00:04.000">Tsch&#252;ss</p></div></body></tt>`)})
+	}
 	td, err := corpus.LoadTestdata(cfg.Repo)
 	if err != nil {
 		return nil, err
@@ -953,6 +959,21 @@ func (e *c20Eval) confirm(sc C20Scenario) ([]Violation, bool) {
 	return e.judge(sc, res[0], races[0])
 }
 
+// confirmN is confirm with retries. The execution is the same every time (recorded decisions), but the race
+// detector itself is not exactly repeatable: it keeps four shadow cells per 8-byte word and evicts pseudo-randomly,
+// so a report can be lost (never invented) in one run and appear in the next.
+func (e *c20Eval) confirmN(sc C20Scenario, n int) ([]Violation, bool) {
+	var inc bool
+	for i := 0; i < n; i++ {
+		vs, ic := e.confirm(sc)
+		if len(vs) > 0 {
+			return vs, ic
+		}
+		inc = ic
+	}
+	return nil, inc
+}
+
 // confirmHang decides whether the tree under test really fails to terminate on this scenario: fresh process, no
 // scheduler, tasks strictly one after the other. Every task alone did terminate (its pristine baseline exists).
 func (e *c20Eval) confirmHang(sc C20Scenario) *Violation {
@@ -1076,7 +1097,11 @@ func RunC20(cfg Config) (*ShardResult, error) {
 				for _, ph := range r.Phases {
 					replay.Decisions = append(replay.Decisions, ph.Decisions)
 				}
-				cvs, _ := e.confirm(replay)
+				tries := 1
+				if vs[0].Class == "data-race" {
+					tries = 3
+				}
+				cvs, _ := e.confirmN(replay, tries)
 				if len(cvs) == 0 && i > 0 {
 					var prefix []C20Scenario
 					for k := 0; k < i; k++ {
@@ -1088,7 +1113,7 @@ func RunC20(cfg Config) (*ShardResult, error) {
 						prefix = append(prefix, p)
 					}
 					comb := combine(append(prefix, replay))
-					cvs, _ = e.confirm(comb)
+					cvs, _ = e.confirmN(comb, tries)
 				}
 				if len(cvs) == 0 {
 					res.Extra["unconfirmed_candidates"]++
@@ -1197,7 +1222,11 @@ func replayC20(cfg Config, rf ReplayFile) (*Violation, error) {
 	if _, err := os.Stat(c20Bin(cfg, sc.Build, true)); err != nil {
 		return nil, fmt.Errorf("the %s race binary is not available: %v", sc.Build, err)
 	}
-	vs, inc := e.confirm(sc)
+	tries := 1
+	if rf.Violation.Class == "data-race" {
+		tries = 5 // see confirmN: the detector may lose a report in a given run
+	}
+	vs, inc := e.confirmN(sc, tries)
 	if len(vs) == 0 {
 		if inc {
 			return nil, fmt.Errorf("replay was inconclusive (child failed or watchdog)")
@@ -1219,8 +1248,12 @@ func minimiseC20(cfg Config, v Violation, budget Deadline) Violation {
 	}
 	e := &c20Eval{cfg: cfg, cache: map[string]pristine{}}
 	var best *Violation
+	tries := 1
+	if v.Class == "data-race" {
+		tries = 2
+	}
 	same := func(s C20Scenario) bool {
-		vs, _ := e.confirm(s)
+		vs, _ := e.confirmN(s, tries)
 		for i := range vs {
 			if vs[i].Class == v.Class {
 				best = &vs[i]
